@@ -683,10 +683,10 @@ DERIV = {
     "ln": lambda x: inv(x),
     "sin": lambda x: apply_fn("cos", x),
     "cos": lambda x: -apply_fn("sin", x),
-    "tan": lambda x: one_like(x) + apply_fn("tan", x) * apply_fn("tan", x),
+    "tan": lambda x: inv(apply_fn("cos", x) * apply_fn("cos", x)),
     "cosh": lambda x: apply_fn("sinh", x),
     "sinh": lambda x: apply_fn("cosh", x),
-    "tanh": lambda x: one_like(x) - apply_fn("tanh", x) * apply_fn("tanh", x),
+    "tanh": lambda x: inv(apply_fn("cosh", x) * apply_fn("cosh", x)),
     "acos": lambda x: -inv(apply_fn("sqrt", one_like(x) - x * x)),
     "asin": lambda x: inv(apply_fn("sqrt", one_like(x) - x * x)),
     "atan": lambda x: inv(one_like(x) + x * x),
@@ -696,8 +696,10 @@ DERIV = {
 
 def apply_fn(name, x):
     """Apply a univariate function to a ring value."""
-    if name == "erf_c":  # the constant 2/sqrt(pi)
-        return one_like(x) * Frac(tm.var("const!two_over_sqrt_pi"))
+    if name == "erf_c":  # the constant 2/sqrt(pi), as the double-precision literal 2.0/sqrt(pi)
+        from .denote import float_literal
+
+        return one_like(x) * Frac(tm.const(float_literal(2.0 / math.sqrt(math.pi))))
     if isinstance(x, Dual):
         return Dual(apply_fn(name, x.a), DERIV[name](x.a) * x.b)
     if isinstance(x, Cx):
@@ -712,9 +714,21 @@ def apply_fn(name, x):
     cv = x.const_value()
     if cv is not None and cv == 0 and name in ZERO_AT_ZERO:
         return Frac(tm.const(ZERO_AT_ZERO[name]))
+    if cv is not None and name in MATH_FOLD:
+        # a function of a literal: the double-precision value, as UFL's constant folding
+        # computes it (rounding of constant folding is outside every claim)
+        from .denote import float_literal
+
+        try:
+            return Frac(tm.const(float_literal(MATH_FOLD[name](float(cv)))))
+        except ValueError:
+            pass
     return Frac(tm.uf("uf_" + name, frac_arg(x)))
 
 
+MATH_FOLD = {"exp": math.exp, "ln": math.log, "sin": math.sin, "cos": math.cos, "tan": math.tan,
+             "cosh": math.cosh, "sinh": math.sinh, "tanh": math.tanh, "acos": math.acos, "asin": math.asin,
+             "atan": math.atan, "erf": math.erf}
 REAL_ON_REALS = {"exp", "sin", "cos", "tan", "cosh", "sinh", "tanh", "atan", "erf"}
 ZERO_AT_ZERO = {"exp": 1, "sin": 0, "cos": 1, "tan": 0, "cosh": 1, "sinh": 0, "tanh": 0, "atan": 0,
                 "erf": 0, "asin": 0}
@@ -740,9 +754,14 @@ def _same_depth(x, y):
 
 def absval(x):
     if isinstance(x, Dual):
-        # d|x| = sign(x) dx, with sign(x) = x/|x|
+        # d|x| = sgn(x) dx  (sgn(0) = 0), for real x
         a = absval(x.a)
-        return Dual(a, (x.a / a) * x.b)
+        p = primal(x.a)
+        pr = p.re if isinstance(p, Cx) else p
+        z = Frac(tm.const(0))
+        one = one_like(x.b)
+        sg = ite(pr.lt(z), -one, ite(pr.eq(z), zero_like(x.b), one))
+        return Dual(a, sg * x.b)
     if isinstance(x, Cx):
         if x.im.is_zero():
             return Cx(frac_abs(x.re))
